@@ -9,7 +9,8 @@
     the arm `| _, _ => .err [evaluationFailed]` of `applyFn` (an argument list of the wrong length) is exactly the case
     `args.length ≠ fnArity f`; every call node of a parsed expression has `args.length = fnArity f`, evaluation of the
     arguments preserves the length, hence evaluation never takes that arm (`applyFnStrict` answers `panic` there, and
-    the evaluator agrees with it on parsed nodes).
+    the evaluator agrees with it on parsed nodes).  `evaluationFailed_only_toString`: the semantic consequence — a
+    compiled expression that does not call `to_string` never reports evaluation-failed.
   * multi-fault soundness: `combineUnordered_sound`, `ievalFields_sound`, `widen_sound` — every category of a failure
     set is a category of one of the failing members (or, for the `…_by` builtins, the invalid-type of a key of the wrong
     kind); `selectObject_sound`, `defineVariables_sound` at node level.  `widen_keeps_first`, `ievalFields_nonempty`.
@@ -18,6 +19,7 @@
 -/
 import Jmes.Proofs.C08BLemmas
 import Jmes.Proofs.C08BArity
+import Jmes.Proofs.C08BStrict
 import Jmes.Properties.C15
 namespace Jmes.C08B
 open Jmes Jmes.RtErr
@@ -151,26 +153,11 @@ theorem applyFn_failed_only_toString (f : Fn) (args : List Val) (h : args.length
              | apply typeName_rt | apply upper_rt | apply values_rt))
 
 /-- evaluating an argument list yields as many values as there are arguments -/
-theorem ievalList_length (root : Val) : ∀ (ns : List INode) (cur : Val) (env : Env) (vs : List Val),
-    ievalList root ns cur env = .ok vs → vs.length = ns.length
-  | [], _, _, vs, h => by simp only [ievalList] at h; cases h; rfl
-  | n :: ns, cur, env, vs, h => by
-    simp only [ievalList] at h
-    cases h1 : ieval root n cur env with
-    | ok v =>
-      cases h2 : ievalList root ns cur env with
-      | ok vs' =>
-        rw [h1, h2] at h
-        cases h
-        simp only [List.length_cons, ievalList_length root ns cur env vs' h2]
-      | err c => rw [h1, h2] at h; cases h
-      | panic w => rw [h1, h2] at h; cases h
-      | nondet => rw [h1, h2] at h; cases h
-      | unmodelled w => rw [h1, h2] at h; cases h
-    | err c => rw [h1] at h; cases h
-    | panic w => rw [h1] at h; cases h
-    | nondet => rw [h1] at h; cases h
-    | unmodelled w => rw [h1] at h; cases h
+theorem ievalList_length (root : Val) (ns : List INode) (cur : Val) (env : Env) (vs : List Val)
+    (h : ievalList root ns cur env = .ok vs) : vs.length = ns.length :=
+  ievalList_len root ns cur env vs h
+example : ∀ vs, ievalList .null [.current, .root] .null [] = .ok vs → vs.length = 2 :=
+  fun vs h => ievalList_length .null _ .null [] vs h
 
 /-- **a call node with the right number of arguments never takes the catch-all arm**: its evaluation is that of the
     strict dispatch -/
@@ -195,6 +182,45 @@ theorem call_never_default (root : Val) (f : Fn) (args : List INode) (cur : Val)
     definition: it is `INode.all`), so `call_never_default` applies to each of them -/
 theorem compile_arityOK {expr : Bytes} {n : INode} (h : compile expr = .ok n) : n.ArityOK = true :=
   parse_arityOK h
+
+
+/-- failure sets without evaluation-failed -/
+def NoFailed (cs : List Cat) : Prop := Cat.evaluationFailed ∉ cs
+instance : HasT NoFailed := ⟨by simp [NoFailed]⟩
+instance : HasV NoFailed := ⟨by simp [NoFailed]⟩
+instance : HasN NoFailed := ⟨by simp [NoFailed]⟩
+instance : HasU NoFailed := ⟨by simp [NoFailed]⟩
+instance : PeMore NoFailed where
+  mem := fun cs h c hc => by
+    simp only [NoFailed, List.mem_singleton]; intro h'; subst h'; exact h hc
+  more := fun cs ex h hex => by
+    simp only [NoFailed, Cat.mem_dedup, List.mem_append, not_or]
+    exact ⟨h, fun hc => by have := hex _ hc; simp [NoFailed] at this⟩
+
+/-- **Semantic form of "the evaluator never takes the catch-all arm".**  The only sources of evaluation-failed are that
+    arm and `to_string` (a value `encoding/json` cannot encode).  On a node whose calls have the right argument count
+    and which does not call `to_string`, no evaluation reports evaluation-failed — for every document. -/
+theorem evaluationFailed_only_toString {n : INode} (ha : n.ArityOK = true)
+    (hs : n.all INode.notToString = true) (d : Val) {cs : List Cat} (h : evaluate n d = .err cs) :
+    Cat.evaluationFailed ∉ cs := by
+  have hq : n.all qNode = true := by
+    unfold qNode
+    rw [INode.all_and, Bool.and_eq_true]
+    exact ⟨ha, hs⟩
+  exact (ieval_rt' (pe := NoFailed) d n hq d []).err_pe h
+
+/-- … in particular for every compiled expression that does not mention `to_string` -/
+theorem compiled_evaluationFailed_only_toString {expr : Bytes} {n : INode} (hc : compile expr = .ok n)
+    (hs : n.all INode.notToString = true) (d : Val) {cs : List Cat} (h : evaluate n d = .err cs) :
+    Cat.evaluationFailed ∉ cs :=
+  evaluationFailed_only_toString (parse_arityOK hc) hs d h
+
+/-- the hypothesis on the argument count is needed (an ill-formed node does report it), and so is the one on
+    `to_string` -/
+example : evaluate (.call .abs []) .null = .err [.evaluationFailed] ∧ (INode.call .abs []).all INode.notToString = true :=
+  ⟨rfl, rfl⟩
+example : evaluate (.call .toString [.lit (.num (.jnum [0x78]))]) .null = .err [.evaluationFailed] ∧
+    (INode.call .toString [.lit (.num (.jnum [0x78]))]).ArityOK = true := ⟨rfl, rfl⟩
 
 /-- non-vacuity: the arm exists for ill-formed nodes, `ArityOK` rejects them, and the strict dispatch panics there -/
 example : evaluate (.call .abs []) .null = .err [.evaluationFailed] := rfl
